@@ -534,7 +534,12 @@ class PyExec:
                 out.append(("fall", None, s))
             return out
         if isinstance(target, (ast.Tuple, ast.List)):
-            if not isinstance(value, (tuple, list)) or len(value) != len(target.elts):
+            if not isinstance(value, (tuple, list)):
+                try:
+                    value = list(self.iter_items(value, st))  # e.g. a small array of known length
+                except Unsupported:
+                    raise Unsupported("unpacking %r" % (value,))
+            if len(value) != len(target.elts):
                 raise Unsupported("unpacking %r" % (value,))
             rs = [("fall", None, st)]
             for t, v in zip(target.elts, value):
@@ -863,7 +868,36 @@ class PyExec:
             if k == "raise":
                 out.append((k, v, s))
                 continue
-            for cond, s2 in self.branch(v, s):
+            brs = self.branch(v, s)
+            if len(brs) == 2:
+                # both outcomes feasible: when the two arms are plain numbers computed without any
+                # effect, the expression is one if-then-else term (as min()/max() are) - no fork
+                t = self.truth(v)
+                arms = []
+                for cond, s2 in brs:
+                    n_pc, n_eff = len(s2.pc), len(s2.effects)
+                    try:
+                        r = self.eval(node.body if cond else node.orelse, s2, fn)
+                    except Unsupported:
+                        r = None
+                    if r is None or len(r) != 1 or r[0][0] != "val" or r[0][2] is not s2 or len(s2.pc) != n_pc or len(s2.effects) != n_eff or not isinstance(r[0][1], (Sym, Const)):
+                        arms = None
+                        break
+                    arms.append((cond, r[0][1]))
+                if arms:
+                    try:
+                        av = dict(arms)
+                        (x, xr), (y, yr) = self.num(av[True]), self.num(av[False])
+                        da = av[True].dtype if isinstance(av[True], Sym) else "int"
+                        db = av[False].dtype if isinstance(av[False], Sym) else "int"
+                        if x.sort() == y.sort() and not z3.is_bool(x) and (da == db or not (xr or yr)):
+                            # (mixed python / numpy integers: value semantics suffice, as for min())
+                            out.append(("val", Sym(z3.If(t, x, y), da if da == db else self.result_dtype(av[True], av[False], False)), s))
+                            continue
+                    except Unsupported:
+                        pass
+                brs = self.branch(v, s)
+            for cond, s2 in brs:
                 out.extend(self.eval(node.body if cond else node.orelse, s2, fn))
         return out
 
